@@ -357,6 +357,23 @@ pub fn error_response(severity: &str, code: &str, message: &str) -> Vec<u8> {
     Msg::new(b'E', body).encode()
 }
 
+/// ErrorResponse whose message field is raw bytes (servers echo identifiers in the client's encoding,
+/// which need not be UTF-8).
+pub fn error_response_bytes(severity: &str, code: &str, message: &[u8]) -> Vec<u8> {
+    let mut body = vec![];
+    body.push(b'S');
+    put_cstr(&mut body, severity);
+    body.push(b'V');
+    put_cstr(&mut body, severity);
+    body.push(b'C');
+    put_cstr(&mut body, code);
+    body.push(b'M');
+    body.extend_from_slice(message);
+    body.push(0);
+    body.push(0);
+    Msg::new(b'E', body).encode()
+}
+
 pub fn notice_response(code: &str, message: &str) -> Vec<u8> {
     let mut body = vec![];
     body.push(b'S');
